@@ -22,6 +22,8 @@ GenRules == (seq = <<>>) =>
        PrintT(<<"CASE", ToJson([kind |-> "fprversion", sigver |-> sv, fprver |-> fv, expect |-> B(FprVersionOk(sv, fv))])>>)
   /\ \A pv \in {4, 6} : \A sv \in {4, 6} : \A r \in {"public", "secret"} :
        PrintT(<<"CASE", ToJson([kind |-> "keygrammar", primary |-> pv, subkey |-> sv, repr |-> r, expect |-> KeyGrammar(pv, sv)])>>)
+  /\ \A pv \in {2, 3} : \A ws \in BOOLEAN :
+       PrintT(<<"CASE", ToJson([kind |-> "keygrammar_legacy", primary |-> pv, with_subkey |-> ws, expect |-> LegacyKeyGrammar(pv, ws)])>>)
   /\ \A cs \in BOOLEAN : \A bs \in {"valid", "missing", "invalid"} : \A r \in {"public", "secret"} :
        PrintT(<<"CASE", ToJson([kind |-> "binding", can_sign |-> cs, backsig |-> bs, repr |-> r, expect |-> B(BindingOk(cs, bs))])>>)
 GenSeqs == PrintT(<<"CASE", ToJson([kind |-> "seq", seq |-> seq, accepts |-> Accepts(seq)])>>)
